@@ -472,7 +472,8 @@ class Pipeline:
         seqm_parameters = {"method": "AM1"}
         if excited:
             seqm_parameters["excited_states"] = {"n_states": NROOTS, "method": "cis"}
-        md = I.construct(ClassRef(self.mod, self.mod.classes[self.cls_name]), [seqm_parameters], kw)
+        kw["seqm_parameters"] = seqm_parameters
+        md = I.construct(ClassRef(self.mod, self.mod.classes[self.cls_name]), [], kw)
         try:
             I.call_function(self.mod, self.mod.func(self._method("run")), [md, mol, steps])
         except Crash:
@@ -931,3 +932,67 @@ def _na_against_spec(fs, output, c, N):
             if [int(x) if x is not UNSET else None for x in surf.data.tolist()] != exp:
                 msgs.append(f"nonadiabatic rows of molecule {mol} do not hold the active surface of their labelled steps")
     return msgs
+
+
+def interpreted_nonadiabatic_engine(repo, tables=((1, 5), (2, 7), (3, 8), (0, 4))):
+    """The nonadiabatic stream as the surface-hopping engine feeds it: the top-level statement of NonadiabaticDynamicsBase.initialize that holds the initial
+    append_nonadiabatic call and the one of NonadiabaticDynamicsBase._do_integrator_step that holds the per-step call are interpreted (sa.npsym) with an interpreted writer,
+    for loop indices i = step_offset .. N-1; /data/nonadiabatic must hold exactly the multiples of the cadence (0 included for a fresh run, not repeated on resume), each row
+    labelled with the step whose active surfaces it holds.  [(cadence, steps, messages)]"""
+    import ast
+    from .loader import callee_attr
+    from .npsym import _Frame
+    md = repo.mod("seqm/MolecularDynamics.py")
+    nad = repo.mod("seqm/NonadiabaticDynamics.py")
+
+    def holder(qual):
+        f = nad.func(qual)
+        hs = [st for st in f.body if any(isinstance(c, ast.Call) and callee_attr(c) == "append_nonadiabatic" for c in ast.walk(st))]
+        if len(hs) != 1:
+            raise AnalysisError(f"{qual}: {len(hs)} top-level statements hold an append_nonadiabatic call")
+        return hs[0]
+    init_st, step_st = holder("NonadiabaticDynamicsBase.initialize"), holder("NonadiabaticDynamicsBase._do_integrator_step")
+    nmol = SPECIES.shape[0]
+
+    def state(t):
+        amp = np.array([[sp.Integer(21 * 10 ** 6 + t * 1000 + m * 100 + r) for r in range(NROOTS)] for m in range(nmol)], dtype=object)
+        nac = np.array([[[sp.Integer(22 * 10 ** 6 + t * 1000 + m * 100 + a * 10 + b) for b in range(NROOTS)] for a in range(NROOTS)] for m in range(nmol)], dtype=object)
+        act = np.array([(t + m) % NROOTS for m in range(nmol)], dtype=np.int64)
+        return act, amp, nac
+
+    def drive(I, w, step_offset, upto):
+        act, amp, nac = state(step_offset)
+        selfns = types.SimpleNamespace(step_offset=step_offset, _h5_writer=w, _active_states=act, _coeffs_complex=lambda fr: amp, _cache_old={"nac_dot": nac}, _cache_new=None)
+        _Frame(I, nad, {"self": selfns}).stmt(init_st)
+        for i in range(step_offset, upto):
+            act, amp, nac = state(i + 1)
+            selfns._active_states = act
+            selfns._coeffs_complex = (lambda a_: (lambda fr: a_))(amp)
+            _Frame(I, nad, {"self": selfns, "i": i, "cache_new": {"nac_dot": nac}, "cache_old": {"nac_dot": nac}}).stmt(step_st)
+    res = []
+    for c, N in tables:
+        msgs = []
+        output = {"molid": [0, 2], "prefix": "p", "h5": {"nonadiabatic": c, "data": 0}}
+        fs = FileSystem()
+        w, I, _ = _open_writer(repo, md, fs, output, N, resume=False, step_offset=0)
+        drive(I, w, 0, N)
+        msgs += _na_against_spec(fs, output, c, N)
+        ref = fs.content()
+        if c > 0 and not msgs:
+            for s, j in ((c, c + 1), (1, 2), (2 * c if 2 * c < N else c, N - 1)):
+                if not (0 < s <= j < N):
+                    continue
+                fs = FileSystem()
+                w, I, _ = _open_writer(repo, md, fs, output, N, resume=False, step_offset=0)
+                drive(I, w, 0, j)
+                try:
+                    w2, I2, _ = _open_writer(repo, md, fs, output, N, resume=True, step_offset=s)
+                    drive(I2, w2, s, N)
+                except Raised as e:
+                    msgs.append(f"resume at step {s} after a kill at step {j}: {str(e)[:120]}")
+                    continue
+                d = diff_content(ref, fs.content())
+                if d:
+                    msgs.append(f"resume at step {s} after a kill at step {j}: nonadiabatic rows differ from the uninterrupted run at {d}")
+        res.append((c, N, msgs))
+    return res
